@@ -1402,6 +1402,9 @@ func checkTypeFault(c typeFaultCase) error {
 	if err, ok := checkRound8TypeFault(c); ok {
 		return err
 	}
+	if err, ok := checkRound9TypeFault(c); ok {
+		return err
+	}
 	if c.Fault == "quote-glued" {
 		text, ok := gluedFaultText(c)
 		if !ok {
@@ -1510,6 +1513,7 @@ func subFaultText(c typeFaultCase) (string, bool) {
 }
 
 func eachTypeFault(emit func(typeFaultCase)) {
+	eachRound9TypeFault(emit) // (first: the cheapest cases)
 	eachGlued(emit)
 	eachRound8TypeFault(emit)
 	for _, sm := range zm.Samples {
@@ -1819,12 +1823,6 @@ func init() {
 		}
 		return nil
 	})
-	pbt.Register(pbt.Sub[hostileCase]{Name: "mutated", Weight: 10, Gen: genHostile, Check: noShrink(checkHostile)})
-	pbt.Register(pbt.Sub[faultCase]{Name: "fault-localisation", Weight: 5, Gen: genFault, Check: noShrink(checkFault)})
-	pbt.Register(pbt.Sub[readFaultCase]{Name: "read-fault", Weight: 4, Gen: genReadFault, Check: noShrink(checkReadFault)})
-	pbt.Register(pbt.Sub[gateCase]{Name: "gate", Weight: 0.2, Gen: genGate, Check: noShrink(checkGate)})
-	pbt.RegisterEnum(pbt.Enum[gateCase]{Name: "gate-table", Exhaustive: true, Each: eachGate, Check: noShrink(checkGate)})
-	pbt.RegisterEnum(pbt.Enum[dirFaultCase]{Name: "directive-fault", Exhaustive: true, Each: eachDirFault, Check: noShrink(checkDirFault)})
 	// repaired by c430c6a: "$INCLUDE inc )" followed the include and then ended the zone silently
 	c07Probe("include-swallows-lexer-error", func() error {
 		for _, a := range []bool{true, false} {
@@ -1836,18 +1834,4 @@ func init() {
 		}
 		return nil
 	})
-	pbt.RegisterEnum(pbt.Enum[typeFaultCase]{Name: "type-fault", Exhaustive: true, Each: eachTypeFault, Check: noShrink(checkTypeFault)})
-	// replay targets for inputs found by the native fuzz targets (no generated cases of their own:
-	// the rapid counterpart of FuzzZoneParser is "mutated")
-	pbt.RegisterEnum(pbt.Enum[hostileCase]{Name: "fuzz-zone", Each: func(emit func(hostileCase)) {
-		emit(fuzzCase([]byte("$GENERATE 1-3 a$ A 10.0.0.$\n$INCLUDE self.db\n"), 0))
-	}, Check: noShrink(checkHostile)})
-	pbt.RegisterEnum(pbt.Enum[newRRCase]{Name: "fuzz-newrr", Each: func(emit func(newRRCase)) {
-		for _, s := range []string{"example.org. 3600 IN MX 10 mail.example.org.", "$GENERATE 0-65535 a$ A 1.2.3.4", "a 5 IN TXT \"x", "a 5 IN A (", "\\"} {
-			emit(newRRCase{Text: s})
-		}
-	}, Check: noShrink(func(c newRRCase) error {
-		pbt.Note([]byte(c.Text), true, "newrr")
-		return checkNewRR(c)
-	})})
 }
